@@ -220,6 +220,15 @@ def do_nwk(h):
                     nwk.add_key(bytes.fromhex(fh["key"]), key_sequence_number=fh["seq"])
                 elif fh["mgmt"] == "set_active":
                     db.set("nwkActiveKeySeqNumber", fh["seq"])
+                elif fh["mgmt"] == "clear_keys":
+                    # NLME-RESET (cold) does database.reset() after the MAC confirm; the receive configuration is then set again
+                    keep = {a: db.get(a) for a in ("nwkSecurityLevel", "nwkAllFresh", "nwkSecureAllFrames", "nwkActiveKeySeqNumber")}
+                    if fh.get("how") == "set":
+                        db.set("nwkSecurityMaterialSet", [])          # NLME-SET of the attribute
+                    else:
+                        db.reset()
+                        for a, v in keep.items():
+                            db.set(a, v)
                 elif fh["mgmt"] == "remove_key":
                     mats = db.get("nwkSecurityMaterialSet")
                     for mat in list(mats):
